@@ -75,7 +75,7 @@ fn yes() -> bool {
 fn submit() -> impl Strategy<Value = Submit> {
 	let picks = || prop::collection::vec(any::<u16>(), 1..=2);
 	prop_oneof![
-		10 => (picks(), 1u8..=3, 0u8..4, 0u8..4, prop_oneof![3 => Just(0u8), 2 => Just(1u8), 2 => Just(2u8), 2 => Just(3u8)]).prop_map(|(ins, n_out, fee_class, shift, kern)| Submit::Fresh { ins, n_out, fee_class, shift, kern }),
+		10 => (picks(), 1u8..=3, 0u8..4, 0u8..4, prop_oneof![3 => Just(0u8), 2 => Just(1u8), 2 => Just(2u8), 2 => Just(3u8), 2 => Just(4u8)]).prop_map(|(ins, n_out, fee_class, shift, kern)| Submit::Fresh { ins, n_out, fee_class, shift, kern }),
 		7 => (any::<u16>(), prop::option::weighted(0.3, any::<u16>()), prop::option::weighted(0.3, any::<u16>()), 0u8..4).prop_map(|(parent_pick, second_parent, utxo_in, fee_class)| Submit::Child { parent_pick, second_parent, utxo_in, fee_class }),
 		3 => (any::<u16>(), 0u8..4).prop_map(|(victim_pick, fee_class)| Submit::Conflict { victim_pick, fee_class }),
 		2 => any::<u16>().prop_map(|pick| Submit::Duplicate { pick }),
@@ -206,10 +206,10 @@ impl Env {
 			return None;
 		}
 		let total: u64 = inputs.iter().map(|o| o.amount).sum();
-		let nk = if kern == 1 { 2 } else { 1 };
+		let nk = if kern == 1 { 2 } else if kern == 4 { 3 } else { 1 };
 		let weight = Transaction::weight_by_iok(inputs.len() as u64, n_out as u64, nk as u64);
 		// the minimum applies to the SHIFTED fee (fee >> fee_shift)
-		let shift = if kern == 1 { 0 } else { shift };
+		let shift = if kern == 1 || kern == 4 { 0 } else { shift };
 		let fee = fee_for(weight, fee_class) << shift;
 		if total <= fee + n_out as u64 {
 			return None;
@@ -247,6 +247,14 @@ impl Env {
 				lock: h + 1,
 				excess_tag: 0,
 			}],
+			// three height-locked kernels, ONE of them beyond the next block (kernels are kept in hash order, which
+			// says nothing about their lock heights): not mineable on the head either
+			4 if fee >= 3 => vec![
+				KernelSpec { kind: KKind::HeightLocked, fee: fee - 2, shift: 0, lock: h + 1, excess_tag: 0 },
+				KernelSpec { kind: KKind::HeightLocked, fee: 1, shift: 0, lock: 1, excess_tag: 0 },
+				KernelSpec { kind: KKind::HeightLocked, fee: 1, shift: 0, lock: h, excess_tag: 0 },
+			],
+			4 => return None,
 			_ => vec![KernelSpec {
 				kind: KKind::Plain,
 				fee,
@@ -438,7 +446,7 @@ pub fn run_case(ctx: &Ctx, case: &Case, counting: bool) -> PResult {
 				let built: Option<(Transaction, Option<bool>, &str)> = match s {
 					Submit::Fresh { ins, n_out, fee_class, shift, kern } => env
 						.spec_from(take(&utxo, ins), *n_out as usize, *fee_class, *shift, *kern)
-						.map(|sp| if *kern == 3 { (assemble(&sp).0, Some(true), "locked-beyond-next-block") } else { (assemble(&sp).0, Some(false), "fresh") }),
+						.map(|sp| if *kern == 3 || *kern == 4 { (assemble(&sp).0, Some(true), if *kern == 3 { "locked-beyond-next-block" } else { "one-of-three-kernels-locked-beyond-next-block" }) } else { (assemble(&sp).0, Some(false), "fresh") }),
 					Submit::Child { parent_pick, second_parent, utxo_in, fee_class } => {
 						let mut ins = take(&pool_outs, &[*parent_pick]);
 						if let Some(p2) = second_parent {
